@@ -142,8 +142,18 @@ func loadEngine(repo string, patterns []string, mirrorDir string, externDir stri
 			sp.Build()
 		}
 	}
-	// contracts: /repo/<pkg>/contracts_verif.go, else the mirror
-	for _, p := range pkgs {
+	// contracts: /repo/<pkg>/contracts_verif.go, else the mirror — for the packages asked for
+	// and for every package of the module they import (their contracts are used at call sites)
+	var withContracts []*packages.Package
+	seenPkg := map[string]bool{}
+	packages.Visit(pkgs, nil, func(p *packages.Package) {
+		if strings.HasPrefix(p.PkgPath, repoMod) && !seenPkg[p.PkgPath] {
+			seenPkg[p.PkgPath] = true
+			withContracts = append(withContracts, p)
+		}
+	})
+	sort.Slice(withContracts, func(i, j int) bool { return withContracts[i].PkgPath < withContracts[j].PkgPath })
+	for _, p := range withContracts {
 		rel := strings.TrimPrefix(strings.TrimPrefix(p.PkgPath, repoMod), "/")
 		rf := filepath.Join(repo, rel, "contracts_verif.go")
 		mf := filepath.Join(mirrorDir, rel, "contracts_verif.go")
@@ -398,6 +408,8 @@ func (e *Engine) verifyFunc(fn *ssa.Function, c *Contract) (rep *FuncReport) {
 	}
 	for _, fv := range fn.FreeVars {
 		v := bindIn("fv!"+fv.Name(), fv.Type())
+		// a free variable is the address of a captured variable: never nil
+		st.assume(And(Ne(v.L[0], I(0)), Gt(v.L[0], I(0))))
 		st.fr.regs[fv] = v
 	}
 	// ghosts
